@@ -98,6 +98,12 @@ def run_one(ch, cfg):
         bad = ch.pick(["0x" + h, "0X" + h, h[:-1], h + "0", h + "00", "zz" * 32, "", h[:-2] + "  ",
                        " " + h[1:], 5, None, [h]], "foreign.bad-hash")
         it = ch.pick([1, 0, 65535], "foreign.iteration")
+        if ch.draw(2, "foreign.which-field") == 1:
+            # the hash is fine, the iteration is not a 16-bit unsigned number (JSON lets booleans,
+            # floats, null, containers and out-of-range numbers through)
+            bad = h
+            it = ch.pick([True, False, -1, 65536, 1.5, 2.0, None, [1], {"n": 1}, "abc", "", "-1", "65536",
+                          "0x10000", 2 ** 40], "foreign.bad-iteration")
         AUTHF = "/simfs/auth.json"
         raw = json.dumps({"version": 1, "signer": {"hash": bad, "iteration": it},
                           "signatures": []}).encode()
@@ -105,17 +111,18 @@ def run_one(ch, cfg):
         k0 = Key(scalar(b"foreign" + ch.bytes(4, "foreign.key")))
         st1, out1 = w.run_tool(signapp.main, ["signapp.py", "key", "-o", AUTHF, "-k", k0.priv.hex()])
         if st1 == 0 or w.fs.files.get(AUTHF) != raw:
-            viol.append(("tools/malformed-hash-accepted", "signapp key on a file with signer hash %r: "
-                         "exit %s, file %s" % (bad, st1, "changed" if w.fs.files.get(AUTHF) != raw
-                                               else "unchanged")))
+            viol.append(("tools/malformed-%s-accepted" % ("hash" if bad != h else "iteration"),
+                         "signapp key on a file with signer hash %r, iteration %r: exit %s, file %s" % (
+                             bad, it, st1, "changed" if w.fs.files.get(AUTHF) != raw else "unchanged")))
         w.fs.put(AUTHF, raw)
         n0 = len(dev.sigaut_log)
         st2, out2 = w.run_tool(adm_ledger.main, ["adm_ledger.py", "authorize_signer", "-p", "abcd1234",
                                                  "-z", AUTHF])
         w.entropy_on = False
         if st2 == 0 or len(dev.sigaut_log) > n0:
-            viol.append(("tools/malformed-hash-accepted", "authorize_signer with signer hash %r: exit %s, "
-                         "%d messages sent to the device" % (bad, st2, len(dev.sigaut_log) - n0)))
+            viol.append(("tools/malformed-%s-accepted" % ("hash" if bad != h else "iteration"),
+                         "authorize_signer with signer hash %r, iteration %r: exit %s, %d messages sent to "
+                         "the device" % (bad, it, st2, len(dev.sigaut_log) - n0)))
         return _res(viol, w, ("foreign-file", str(type(bad).__name__), len(str(bad))), True,
                     {"foreign_file": 1}, {"hash": repr(bad)[:80], "signapp_exit": st1,
                                           "authorize_exit": st2})
